@@ -462,6 +462,17 @@ class IdlAdapter(Adapter):
         it.run(code)
         return it
 
+    def subarray(self, it, code, cwd, k):
+        # IDL code has no accessor function: the program sets k and then evaluates an IF statement that sets sa
+        import re
+        new, n = re.subn(r'(?mi)^(\s*k\s*=\s*)\d+', lambda m: m.group(1) + str(k), code)
+        if n != 1:
+            raise LangError('the program has no single "k = <number>" statement to select the subarray')
+        it2 = self.run(new, cwd)
+        if 'sa' not in it2.env:
+            raise LangError('the program does not set sa')
+        return it2.env['sa']
+
     def to_numpy(self, v, var='value'):
         if isinstance(v, Null):
             return np.zeros((0,), dtype='f8')
